@@ -446,8 +446,11 @@ func writeEvidence(o *CheckOpts, pc *PropConfig, funcs []string, total, discharg
 		as = append(as, "not decided: "+nd)
 	}
 	cov := map[string]interface{}{
-		"obligations":              total,
+		// obligations listed in known_findings.json are reported as KNOWN-FINDING lines, not as proved:
+		// they are excluded from both counts and given separately
+		"obligations":              total - knownCount,
 		"discharged":               discharged,
+		"obligations_generated":    total,
 		"delimited_by_known_finding": knownCount,
 		"checker_cmd":              fmt.Sprintf("./bin/govc check --property %s --tier %s", o.Prop, o.Tier),
 		"trusted_base":             pc.TrustedBase,
